@@ -1,10 +1,1025 @@
-//! C14 — not built yet.
-use crate::{sx::Sx, Emitter};
+//! C14 — HTML sanitizer: cases and implementation outcomes (shared with C15).
+//!
+//! case    = ( cfg html-bytes parsed-tree )
+//!   cfg   = ( mode reply replace_elements remove_elements ignore_elements allow_elements
+//!             replace_attrs remove_attrs allow_attrs deny_schemes allow_schemes
+//!             remove_classes allow_classes max_depth )
+//!           mode 0 none / 1 strict / 2 compat; unset options are `( )`, set ones `( x )`;
+//!           lists with a behaviour are `( override? content )`.
+//!   tree  = ( node* );  node = ( N0 ns name ( attr* ) ( node* ) ) | ( N1 text ) | ( N2 )
+//!   attr  = ( prefix-enc ns local value ), in the BTreeSet's iteration order; prefix-enc is
+//!           empty for `None` and 0x01 ++ prefix for `Some(prefix)` (order-preserving).
+//! outcome = ok ( cleaned-tree reparsed-output-tree ( entry-points-agree ) ) | panic
+//!   cleaned-tree: `Html::parse(html)`, `sanitize_with(cfg)`, dumped through the public DOM API;
+//!   reparsed-output-tree: `Html::parse(html.to_string())` of the cleaned document — what an HTML
+//!   parser sees; html5ever is not modelled, so the Coq side echoes it and evaluates the spec on it;
+//!   entry-points-agree: for a preset, `sanitize_html` / `remove_html_reply_fallback` / `Html::sanitize`
+//!   return the same string as parse + sanitize_with + to_string (echoed, required by the spec check).
+use ruma_html::{
+    ElementAttributesReplacement, ElementAttributesSchemes, Html, HtmlSanitizerMode, ListBehavior,
+    NameReplacement, NodeData, NodeRef, PropertiesNames, RemoveReplyFallback, SanitizerConfig,
+};
 
-pub fn run(_tier: &str, _seed: u64, _em: &mut Emitter) {}
+use crate::{
+    rng::Rng,
+    sx::{guarded, Sx},
+    Emitter,
+};
 
-pub fn replay(_case: &Sx) -> Option<Sx> {
-    None
+type S = &'static str;
+type Props = Vec<(S, Vec<S>)>;
+type Schemes = Vec<(S, Props)>;
+
+#[derive(Clone, Debug, Default)]
+pub struct Cfg {
+    pub mode: u8,
+    pub reply: bool,
+    pub replace_elems: Option<(bool, Vec<(S, S)>)>,
+    pub remove_elems: Option<Vec<S>>,
+    pub ignore_elems: Option<Vec<S>>,
+    pub allow_elems: Option<(bool, Vec<S>)>,
+    pub replace_attrs: Option<(bool, Vec<(S, Vec<(S, S)>)>)>,
+    pub remove_attrs: Option<Props>,
+    pub allow_attrs: Option<(bool, Props)>,
+    pub deny_schemes: Option<Schemes>,
+    pub allow_schemes: Option<(bool, Schemes)>,
+    pub remove_classes: Option<Props>,
+    pub allow_classes: Option<(bool, Props)>,
+    pub max_depth: Option<u32>,
+}
+
+fn beh(o: bool) -> ListBehavior {
+    if o {
+        ListBehavior::Override
+    } else {
+        ListBehavior::Add
+    }
+}
+
+fn dedup_keys<T: Clone>(v: &[(S, T)]) -> Vec<(S, T)> {
+    // HashMap::from_iter keeps the last entry of a key; the model looks up the first.
+    let mut out: Vec<(S, T)> = vec![];
+    for (k, x) in v.iter().rev() {
+        if !out.iter().any(|(k2, _)| k2 == k) {
+            out.push((*k, x.clone()));
+        }
+    }
+    out.reverse();
+    out
+}
+
+impl Cfg {
+    /// Make every association list key-unique (last entry wins, as `HashMap::from_iter`).
+    pub fn normalise(mut self) -> Self {
+        if let Some((_, l)) = &mut self.replace_elems {
+            *l = dedup_keys(l);
+        }
+        if let Some((_, l)) = &mut self.replace_attrs {
+            *l = dedup_keys(l);
+            for (_, m) in l.iter_mut() {
+                *m = dedup_keys(m);
+            }
+        }
+        for l in [&mut self.remove_attrs, &mut self.remove_classes].into_iter().flatten() {
+            *l = dedup_keys(l);
+        }
+        for (_, l) in [&mut self.allow_attrs, &mut self.allow_classes].into_iter().flatten() {
+            *l = dedup_keys(l);
+        }
+        if let Some(l) = &mut self.deny_schemes {
+            *l = dedup_keys(l);
+            for (_, m) in l.iter_mut() {
+                *m = dedup_keys(m);
+            }
+        }
+        if let Some((_, l)) = &mut self.allow_schemes {
+            *l = dedup_keys(l);
+            for (_, m) in l.iter_mut() {
+                *m = dedup_keys(m);
+            }
+        }
+        self
+    }
+
+    /// `Some((mode, reply))` when no list option and no depth is set.
+    pub fn preset_kind(&self) -> Option<(u8, bool)> {
+        let plain = self.replace_elems.is_none()
+            && self.remove_elems.is_none()
+            && self.ignore_elems.is_none()
+            && self.allow_elems.is_none()
+            && self.replace_attrs.is_none()
+            && self.remove_attrs.is_none()
+            && self.allow_attrs.is_none()
+            && self.deny_schemes.is_none()
+            && self.allow_schemes.is_none()
+            && self.remove_classes.is_none()
+            && self.allow_classes.is_none()
+            && self.max_depth.is_none();
+        plain.then_some((self.mode, self.reply))
+    }
+
+    /// Through the public builder only.
+    pub fn build(&self) -> SanitizerConfig {
+        let mut c = match self.mode {
+            1 => SanitizerConfig::strict(),
+            2 => SanitizerConfig::compat(),
+            _ => SanitizerConfig::new(),
+        };
+        if self.reply {
+            c = c.remove_reply_fallback();
+        }
+        if let Some((o, l)) = &self.replace_elems {
+            c = c.replace_elements(l.iter().map(|(a, b)| NameReplacement { old: a, new: b }), beh(*o));
+        }
+        if let Some(l) = &self.remove_elems {
+            c = c.remove_elements(l.iter().copied());
+        }
+        if let Some(l) = &self.ignore_elems {
+            c = c.ignore_elements(l.iter().copied());
+        }
+        if let Some((o, l)) = &self.allow_elems {
+            c = c.allow_elements(l.iter().copied(), beh(*o));
+        }
+        if let Some((o, l)) = &self.replace_attrs {
+            let reps: Vec<Vec<NameReplacement>> =
+                l.iter().map(|(_, m)| m.iter().map(|(a, b)| NameReplacement { old: a, new: b }).collect()).collect();
+            c = c.replace_attributes(
+                l.iter().zip(reps.iter()).map(|((e, _), r)| ElementAttributesReplacement { element: e, replacements: r }),
+                beh(*o),
+            );
+        }
+        fn props(l: &Props) -> impl Iterator<Item = PropertiesNames<'_>> {
+            l.iter().map(|(p, v)| PropertiesNames { parent: p, properties: v })
+        }
+        if let Some(l) = &self.remove_attrs {
+            c = c.remove_attributes(props(l));
+        }
+        if let Some((o, l)) = &self.allow_attrs {
+            c = c.allow_attributes(props(l), beh(*o));
+        }
+        if let Some(l) = &self.deny_schemes {
+            let inner: Vec<Vec<PropertiesNames<'_>>> = l.iter().map(|(_, m)| props(m).collect()).collect();
+            c = c.deny_schemes(
+                l.iter().zip(inner.iter()).map(|((e, _), s)| ElementAttributesSchemes { element: e, attr_schemes: s }),
+            );
+        }
+        if let Some((o, l)) = &self.allow_schemes {
+            let inner: Vec<Vec<PropertiesNames<'_>>> = l.iter().map(|(_, m)| props(m).collect()).collect();
+            c = c.allow_schemes(
+                l.iter().zip(inner.iter()).map(|((e, _), s)| ElementAttributesSchemes { element: e, attr_schemes: s }),
+                beh(*o),
+            );
+        }
+        if let Some(l) = &self.remove_classes {
+            c = c.remove_classes(props(l));
+        }
+        if let Some((o, l)) = &self.allow_classes {
+            c = c.allow_classes(props(l), beh(*o));
+        }
+        if let Some(d) = self.max_depth {
+            c = c.max_depth(d);
+        }
+        c
+    }
+
+    pub fn to_sx(&self) -> Sx {
+        fn strs(l: &[S]) -> Sx {
+            Sx::L(l.iter().map(|s| Sx::s(s)).collect())
+        }
+        fn pairs(l: &[(S, S)]) -> Sx {
+            Sx::L(l.iter().map(|(a, b)| Sx::L(vec![Sx::s(a), Sx::s(b)])).collect())
+        }
+        fn props(l: &Props) -> Sx {
+            Sx::L(l.iter().map(|(p, v)| Sx::L(vec![Sx::s(p), strs(v)])).collect())
+        }
+        fn schemes(l: &Schemes) -> Sx {
+            Sx::L(l.iter().map(|(e, m)| Sx::L(vec![Sx::s(e), props(m)])).collect())
+        }
+        fn with_beh(o: bool, x: Sx) -> Sx {
+            Sx::L(vec![Sx::b(o), x])
+        }
+        Sx::L(vec![
+            Sx::n(self.mode),
+            Sx::b(self.reply),
+            Sx::opt(self.replace_elems.as_ref().map(|(o, l)| with_beh(*o, pairs(l)))),
+            Sx::opt(self.remove_elems.as_ref().map(|l| strs(l))),
+            Sx::opt(self.ignore_elems.as_ref().map(|l| strs(l))),
+            Sx::opt(self.allow_elems.as_ref().map(|(o, l)| with_beh(*o, strs(l)))),
+            Sx::opt(self.replace_attrs.as_ref().map(|(o, l)| {
+                with_beh(*o, Sx::L(l.iter().map(|(e, m)| Sx::L(vec![Sx::s(e), pairs(m)])).collect()))
+            })),
+            Sx::opt(self.remove_attrs.as_ref().map(props)),
+            Sx::opt(self.allow_attrs.as_ref().map(|(o, l)| with_beh(*o, props(l)))),
+            Sx::opt(self.deny_schemes.as_ref().map(schemes)),
+            Sx::opt(self.allow_schemes.as_ref().map(|(o, l)| with_beh(*o, schemes(l)))),
+            Sx::opt(self.remove_classes.as_ref().map(props)),
+            Sx::opt(self.allow_classes.as_ref().map(|(o, l)| with_beh(*o, props(l)))),
+            Sx::opt(self.max_depth.map(Sx::n)),
+        ])
+    }
+
+    pub fn from_sx(x: &Sx) -> Option<Cfg> {
+        fn leak(x: &Sx) -> Option<S> {
+            Some(Box::leak(x.as_string()?.into_boxed_str()))
+        }
+        fn strs(x: &Sx) -> Option<Vec<S>> {
+            x.as_list()?.iter().map(leak).collect()
+        }
+        fn pairs(x: &Sx) -> Option<Vec<(S, S)>> {
+            x.as_list()?.iter().map(|p| { let l = p.as_list()?; Some((leak(l.first()?)?, leak(l.get(1)?)?)) }).collect()
+        }
+        fn props(x: &Sx) -> Option<Props> {
+            x.as_list()?.iter().map(|p| { let l = p.as_list()?; Some((leak(l.first()?)?, strs(l.get(1)?)?)) }).collect()
+        }
+        fn schemes(x: &Sx) -> Option<Schemes> {
+            x.as_list()?.iter().map(|p| { let l = p.as_list()?; Some((leak(l.first()?)?, props(l.get(1)?)?)) }).collect()
+        }
+        fn opt<T>(x: &Sx, f: impl Fn(&Sx) -> Option<T>) -> Option<Option<T>> {
+            match x.as_opt()? {
+                None => Some(None),
+                Some(v) => Some(Some(f(v)?)),
+            }
+        }
+        fn with_beh<T>(x: &Sx, f: impl Fn(&Sx) -> Option<T>) -> Option<(bool, T)> {
+            let l = x.as_list()?;
+            Some((l.first()?.as_int()? != 0, f(l.get(1)?)?))
+        }
+        let l = x.as_list()?;
+        if l.len() != 14 {
+            return None;
+        }
+        Some(Cfg {
+            mode: u8::try_from(l[0].as_int()?).ok()?,
+            reply: l[1].as_int()? != 0,
+            replace_elems: opt(&l[2], |x| with_beh(x, pairs))?,
+            remove_elems: opt(&l[3], strs)?,
+            ignore_elems: opt(&l[4], strs)?,
+            allow_elems: opt(&l[5], |x| with_beh(x, strs))?,
+            replace_attrs: opt(&l[6], |x| {
+                with_beh(x, |y| {
+                    y.as_list()?.iter().map(|p| { let l = p.as_list()?; Some((leak(l.first()?)?, pairs(l.get(1)?)?)) }).collect()
+                })
+            })?,
+            remove_attrs: opt(&l[7], props)?,
+            allow_attrs: opt(&l[8], |x| with_beh(x, props))?,
+            deny_schemes: opt(&l[9], schemes)?,
+            allow_schemes: opt(&l[10], |x| with_beh(x, schemes))?,
+            remove_classes: opt(&l[11], props)?,
+            allow_classes: opt(&l[12], |x| with_beh(x, props))?,
+            max_depth: opt(&l[13], |x| u32::try_from(x.as_int()?).ok())?,
+        })
+    }
+}
+
+// ---------------------------------------------------------------------------------------------
+// DOM dump through the public API
+// ---------------------------------------------------------------------------------------------
+const HTML_NS: &str = "http://www.w3.org/1999/xhtml";
+
+pub fn node_sx(n: &NodeRef) -> Sx {
+    match n.data() {
+        NodeData::Element(e) => {
+            let ns: &str = &e.name.ns;
+            let attrs = e.attrs.borrow();
+            let al = attrs
+                .iter()
+                .map(|a| {
+                    let pfx = match &a.name.prefix {
+                        None => vec![],
+                        Some(p) => {
+                            let mut v = vec![1u8];
+                            v.extend_from_slice(p.as_bytes());
+                            v
+                        }
+                    };
+                    let ans: &str = &a.name.ns;
+                    Sx::L(vec![Sx::S(pfx), Sx::s(ans), Sx::s(&a.name.local), Sx::s(&a.value)])
+                })
+                .collect();
+            Sx::L(vec![
+                Sx::N(0),
+                Sx::s(if ns == HTML_NS { "" } else { ns }),
+                Sx::s(&e.name.local),
+                Sx::L(al),
+                Sx::L(n.children().map(|c| node_sx(&c)).collect()),
+            ])
+        }
+        NodeData::Text(t) => Sx::L(vec![Sx::N(1), Sx::s(&t.borrow())]),
+        _ => Sx::L(vec![Sx::N(2)]),
+    }
+}
+
+pub fn tree_sx(h: &Html) -> Sx {
+    Sx::L(h.children().map(|c| node_sx(&c)).collect())
+}
+
+pub fn case_sx(cfg: &Cfg, html: &str) -> Sx {
+    Sx::L(vec![cfg.to_sx(), Sx::s(html), tree_sx(&Html::parse(html))])
+}
+
+pub fn decode_case(case: &Sx) -> Option<(Cfg, String)> {
+    let l = case.as_list()?;
+    Some((Cfg::from_sx(l.first()?)?.normalise(), l.get(1)?.as_string()?))
+}
+
+pub fn run_case(cfg: &Cfg, html: &str) -> Sx {
+    let cfg = cfg.clone();
+    let html = html.to_owned();
+    guarded(move || {
+        let conf = cfg.build();
+        let doc = Html::parse(&html);
+        doc.sanitize_with(&conf);
+        let cleaned = tree_sx(&doc);
+        let out = doc.to_string();
+        let re = Html::parse(&out);
+        // the string entry points are thin wrappers: same result as parse + sanitize_with + to_string
+        let entry_ok = match cfg.preset_kind() {
+            Some((1, reply)) => ruma_html::sanitize_html(&html, HtmlSanitizerMode::Strict, rrf(reply)) == out,
+            Some((2, reply)) => {
+                let a = ruma_html::sanitize_html(&html, HtmlSanitizerMode::Compat, rrf(reply)) == out;
+                let b = !reply || {
+                    let d = Html::parse(&html);
+                    d.sanitize();
+                    d.to_string() == out
+                };
+                a && b
+            }
+            Some((_, true)) => ruma_html::remove_html_reply_fallback(&html) == out,
+            _ => true,
+        };
+        Sx::ok(Sx::L(vec![cleaned, tree_sx(&re), Sx::L(vec![Sx::b(entry_ok)])]))
+    })
+}
+
+fn rrf(reply: bool) -> RemoveReplyFallback {
+    if reply {
+        RemoveReplyFallback::Yes
+    } else {
+        RemoveReplyFallback::No
+    }
 }
 
 pub fn dump(_dir: &str) {}
+
+pub fn replay(case: &Sx) -> Option<Sx> {
+    let (cfg, html) = decode_case(case)?;
+    Some(run_case(&cfg, &html))
+}
+
+// ---------------------------------------------------------------------------------------------
+// Generators
+// ---------------------------------------------------------------------------------------------
+pub const ALLOWED: &[&str] = &[
+    "del", "h1", "h2", "h3", "h4", "h5", "h6", "blockquote", "p", "a", "ul", "ol", "sup", "sub", "li", "b", "i", "u",
+    "strong", "em", "s", "code", "hr", "br", "div", "table", "thead", "tbody", "tr", "th", "td", "caption", "pre",
+    "span", "img", "details", "summary",
+];
+pub const DEPRECATED: &[&str] = &["font", "strike"];
+pub const FORBIDDEN: &[&str] = &[
+    "script", "style", "iframe", "object", "form", "input", "marquee", "x-foo", "mx-reply", "video", "textarea",
+    "title", "template", "noscript", "select", "option", "button", "body", "html", "head", "center", "big", "tt",
+    "nobr", "xmp", "plaintext", "frameset", "col", "colgroup", "tfoot",
+];
+pub const FOREIGN: &[&str] = &[
+    "svg", "math", "circle", "foreignObject", "desc", "mi", "mtext", "annotation-xml", "mglyph", "use", "g", "path",
+];
+
+pub const URIS: &[&str] = &[
+    "https://a.b/c", "http://a.b", "ftp://a", "mailto:x@y", "magnet:?xt=1", "matrix:u/a:b", "mxc://s/m",
+    "javascript:alert(1)", "JavaScript:alert(1)", "HTTPS://a.b", " https://a", "\thttps://a", "java\tscript:alert(1)",
+    "\u{1}javascript:alert(1)", "data:text/html,x", "//evil", "/rel", "x", "", "https", "https:", ":", "http:x", "mxc:",
+    "mxc:/", "vbscript:x", "jav&#x09;ascript:alert(1)", "javascript&colon;alert(1)", "https&#58;//a", "httpss://a",
+    "http s://a", "mxc ://s/m", "MXC://s/m", "mailto", "magnet", "matrix:", "matrixx:a", "\u{e9}https://a", "https\u{0}://a",
+    "https://a\"b", "https://a'b", "https://a<b>", "blob:x", "file:///etc/passwd", "tel:1",
+];
+
+pub const CLASSES: &[&str] = &[
+    "language-rust", "language-", "language", "lang", "Language-x", "foo", "language-a language-b", "x language-c",
+    "language-c  y", " language-d ", "a\tb", "a\u{a0}b", "a\u{2003}language-x", "", " ", "ab", "b", "a", "lang1", "langs",
+    "language-\u{e9}", "\u{e9}", "language-x*", "*", "?", "a\u{85}b", "a\u{200b}b", "a\u{c}language-q",
+];
+
+pub const ATTR_POOL: &[(&str, &[&str])] = &[
+    ("a", &["href", "target", "data-x", "class", "name", "onclick", "title"]),
+    ("img", &["src", "alt", "width", "height", "title", "onerror", "data-mx-x"]),
+    ("span", &["data-mx-color", "data-mx-bg-color", "data-mx-spoiler", "data-mx-maths", "class", "style", "color"]),
+    ("code", &["class", "id", "data-mx-maths"]),
+    ("font", &["color", "data-mx-color", "size", "data-mx-bg-color", "class", "style"]),
+    ("div", &["data-mx-maths", "class", "id", "style"]),
+    ("ol", &["start", "type", "class"]),
+    ("p", &["id", "class", "style", "href", "src"]),
+    ("strike", &["color", "class"]),
+    ("svg", &["href", "xlink:href", "xml:lang", "xmlns:xlink", "viewBox", "class"]),
+    ("x-foo", &["href", "src", "class", "id"]),
+    ("mx-reply", &["id", "class"]),
+    ("td", &["colspan", "class", "href"]),
+];
+
+fn attr_value(r: &mut Rng, el: &str, name: &str) -> String {
+    match name {
+        "href" | "src" | "xlink:href" => (*r.pick(URIS)).to_owned(),
+        "class" => (*r.pick(CLASSES)).to_owned(),
+        "color" | "data-mx-color" | "data-mx-bg-color" => (*r.pick(&["#ff0000", "red", "", "#FFF", "javascript:x"])).to_owned(),
+        "target" => (*r.pick(&["_blank", "_self", ""])).to_owned(),
+        "start" | "width" | "height" | "colspan" | "size" => (*r.pick(&["1", "0", "-1", "100", "x", ""])).to_owned(),
+        _ => {
+            if r.chance(1, 6) {
+                (*r.pick(URIS)).to_owned()
+            } else {
+                let _ = el;
+                (*r.pick(&["1", "x", "", "a b", "a&amp;b", "&lt;b&gt;", "\u{e9}"])).to_owned()
+            }
+        }
+    }
+}
+
+fn quote_attr(r: &mut Rng, v: &str) -> String {
+    // values containing entity references are left as written (the parser decodes them)
+    let esc = v.replace('"', "&quot;");
+    match r.below(10) {
+        0 if !v.is_empty() && !v.contains([' ', '\t', '>', '\'', '"', '=', '<', '`', '\u{c}', '\n']) => v.to_owned(),
+        1 if !v.contains('\'') => format!("'{v}'"),
+        _ => format!("\"{esc}\""),
+    }
+}
+
+pub fn elem_attrs(r: &mut Rng, el: &str) -> String {
+    let pool: &[&str] = ATTR_POOL.iter().find(|(e, _)| *e == el).map(|(_, p)| *p).unwrap_or(&["id", "class", "style", "href", "title"]);
+    let mut s = String::new();
+    let k = match r.below(8) {
+        0..=2 => 0,
+        3 | 4 => 1,
+        5 => 2,
+        6 => 3,
+        _ => pool.len(),
+    };
+    let mut names: Vec<&str> = pool.to_vec();
+    // random order, first k
+    for i in (1..names.len()).rev() {
+        names.swap(i, r.below(i + 1));
+    }
+    names.truncate(k.min(pool.len()));
+    if r.chance(1, 25) && !names.is_empty() {
+        let d = names[0];
+        names.push(d); // duplicate attribute (parser keeps the first)
+    }
+    for n in names {
+        let v = attr_value(r, el, n);
+        s.push(' ');
+        if r.chance(1, 15) {
+            s.push_str(&n.to_uppercase());
+        } else {
+            s.push_str(n);
+        }
+        if r.chance(1, 20) {
+            continue; // valueless attribute
+        }
+        s.push('=');
+        s.push_str(&quote_attr(r, &v));
+    }
+    s
+}
+
+pub const TEXTS: &[&str] = &[
+    "x", "hello world", " ", "a&amp;b", "&lt;script&gt;", "1 < 2", "\u{e9}\u{1F600}", "\n", "a\u{0}b", "]]>", "&", "&#x3c;b&#x3e;",
+    "</", "-->", "&notanentity;", "t",
+];
+
+fn pick_elem(r: &mut Rng) -> &'static str {
+    match r.below(20) {
+        0..=10 => *r.pick(ALLOWED),
+        11 | 12 => *r.pick(DEPRECATED),
+        13..=16 => *r.pick(FORBIDDEN),
+        _ => *r.pick(FOREIGN),
+    }
+}
+
+fn gen_nodes(r: &mut Rng, out: &mut String, depth: usize, budget: &mut usize, clean_only: bool) {
+    let n = if depth == 0 { 1 + r.below(4) } else { r.below(4) };
+    for _ in 0..n {
+        if *budget == 0 {
+            return;
+        }
+        *budget -= 1;
+        let k = r.below(20);
+        if k < 5 {
+            out.push_str(if clean_only { *r.pick(&["x", "hello", "a&amp;b", "1 &lt; 2", "\u{e9}"]) } else { *r.pick(TEXTS) });
+        } else if k == 5 && !clean_only {
+            out.push_str(*r.pick(&["<!-- c -->", "<!---->", "<?pi x?>", "<!DOCTYPE html>", "<![CDATA[x]]>", "<!-- <b> -->", "<!>", "<!-- --!>"]));
+        } else if k == 6 && !clean_only {
+            // malformed markup
+            out.push_str(*r.pick(&[
+                "</p>", "<", "<a<b>", "</ x>", "<p/>", "<b <i>", "<div", "<img src=x", "</br>", "<a href='x>", "<p =x>", "<//>", "<b></i></b>",
+                "<table><b>", "</table>", "<tr>", "<td>", "<li>", "<select><b>", "<svg><p>", "<math><b>", "</svg>",
+            ]));
+        } else {
+            let el = if clean_only { *r.pick(ALLOWED) } else { pick_elem(r) };
+            out.push('<');
+            out.push_str(el);
+            if clean_only {
+                out.push_str(&clean_attrs(r, el));
+            } else {
+                out.push_str(&elem_attrs(r, el));
+            }
+            out.push('>');
+            let void = matches!(el, "br" | "hr" | "img" | "input" | "col");
+            if !void {
+                if depth < 6 {
+                    gen_nodes(r, out, depth + 1, budget, clean_only);
+                }
+                if clean_only || !r.chance(1, 12) {
+                    out.push_str("</");
+                    out.push_str(el);
+                    out.push('>');
+                }
+            }
+        }
+    }
+}
+
+/// Attributes from the allow-list grammar (C15 preservation).
+fn clean_attrs(r: &mut Rng, el: &str) -> String {
+    let mut s = String::new();
+    let mut add = |r: &mut Rng, n: &str, vals: &[&str]| {
+        if r.chance(1, 2) {
+            s.push_str(&format!(" {n}=\"{}\"", r.pick(vals)));
+        }
+    };
+    match el {
+        "a" => {
+            add(r, "href", &["https://a.b/c", "http://a", "ftp://a", "mailto:x@y", "magnet:?x"]);
+            add(r, "target", &["_blank"]);
+        }
+        "img" => {
+            add(r, "src", &["mxc://s/m", "mxc:x"]);
+            add(r, "alt", &["x", ""]);
+            add(r, "width", &["1"]);
+            add(r, "height", &["2"]);
+            add(r, "title", &["t"]);
+        }
+        "span" => {
+            add(r, "data-mx-color", &["#ff0000"]);
+            add(r, "data-mx-bg-color", &["#00ff00"]);
+            add(r, "data-mx-spoiler", &["", "reason"]);
+            add(r, "data-mx-maths", &["x^2"]);
+        }
+        "div" => add(r, "data-mx-maths", &["x^2"]),
+        "ol" => add(r, "start", &["1", "5"]),
+        "code" => add(r, "class", &["language-rust", "language-a language-b", "language-"]),
+        _ => {}
+    }
+    s
+}
+
+pub fn gen_doc(r: &mut Rng, clean_only: bool) -> String {
+    let mut s = String::new();
+    let mut budget = 4 + r.below(30);
+    gen_nodes(r, &mut s, 0, &mut budget, clean_only);
+    s
+}
+
+/// `n` nested elements around a payload (nesting stream).
+pub fn gen_nested(r: &mut Rng, n: usize) -> String {
+    let mut s = String::new();
+    let mut stack = vec![];
+    for _ in 0..n {
+        let el = match r.below(10) {
+            0..=5 => *r.pick(&["div", "span", "b", "blockquote", "ul", "li", "em", "details"]),
+            6 => "font",
+            7 => *r.pick(&["x-foo", "center", "big", "svg", "g"]),
+            8 => "mx-reply",
+            _ => "div",
+        };
+        s.push_str(&format!("<{el}>"));
+        stack.push(el);
+    }
+    s.push_str(*r.pick(&["x", "<a href=\"https://a\">l</a>", "<script>1</script>", "<img src=\"mxc://a/b\">", "<!--c-->t"]));
+    while let Some(el) = stack.pop() {
+        if !r.chance(1, 40) {
+            s.push_str(&format!("</{el}>"));
+        }
+        if r.chance(1, 30) {
+            s.push_str("t");
+        }
+    }
+    s
+}
+
+const OPT_REPLACE_ELEMS: &[&[(S, S)]] = &[&[("b", "strong")], &[("font", "em")], &[("x-foo", "span"), ("i", "b")], &[("i", "b"), ("b", "i")], &[("p", "mx-reply")], &[]];
+const OPT_ELEMS: &[&[S]] = &[&["script"], &["b", "span"], &["mx-reply"], &["div"], &["a", "p"], &["x-foo"], &["script", "svg"], &["a", "img", "span", "code"], &["font"], &[]];
+const OPT_REPLACE_ATTRS: &[&[(S, &[(S, S)])]] = &[
+    &[("a", &[("name", "target")])],
+    &[("font", &[("size", "data-mx-bg-color")])],
+    &[("span", &[("style", "class")])],
+    &[("a", &[("data-x", "href")]), ("img", &[("onerror", "src")])],
+    &[("font", &[("color", "data-mx-bg-color")])],
+    &[],
+];
+const OPT_PROPS_ATTRS: &[&[(S, &[S])]] = &[
+    &[("a", &["target"])],
+    &[("span", &["data-mx-color"]), ("img", &["alt"])],
+    &[("a", &["data-x", "class"])],
+    &[("p", &["id"]), ("img", &["onerror"])],
+    &[("code", &["id"])],
+    &[("span", &["class"]), ("a", &["href", "name"])],
+    &[("x-foo", &["href", "class"])],
+    &[],
+];
+const OPT_SCHEMES: &[&[(S, &[(S, &[S])])]] = &[
+    &[("a", &[("href", &["http"])])],
+    &[("img", &[("src", &["mxc"])])],
+    &[("a", &[("href", &["javascript"])])],
+    &[("img", &[("src", &["https", "http"])])],
+    &[("a", &[("data-x", &["x"])])],
+    &[("x-foo", &[("href", &["https"]), ("src", &["mxc"])])],
+    &[("a", &[("href", &[])])],
+    &[("p", &[("href", &["https"])])],
+    &[],
+];
+const OPT_CLASSES: &[&[(S, &[S])]] = &[
+    &[("code", &["language-x*"])],
+    &[("span", &["*"])],
+    &[("code", &["lang?"])],
+    &[("span", &["a*", "b"])],
+    &[("a", &["*"])],
+    &[("code", &["language-?", "*-b"])],
+    &[("div", &["a?b", "**", "l*g*e-*"])],
+    &[("code", &[""])],
+    &[],
+];
+
+fn props_of(x: &[(S, &[S])]) -> Props {
+    x.iter().map(|(p, v)| (*p, v.to_vec())).collect()
+}
+fn schemes_of(x: &[(S, &[(S, &[S])])]) -> Schemes {
+    x.iter().map(|(e, m)| (*e, props_of(m))).collect()
+}
+
+/// A configuration: preset x reply-fallback x each list option unset / Add / Override.
+pub fn gen_cfg(r: &mut Rng) -> Cfg {
+    let mut c = Cfg { mode: [1u8, 1, 2, 2, 0][r.below(5)], reply: r.chance(1, 2), ..Default::default() };
+    // most configurations touch few options
+    let p = *r.pick(&[0u64, 1, 1, 2, 4]);
+    let on = |r: &mut Rng| r.chance(p, 10);
+    if on(r) {
+        c.replace_elems = Some((r.chance(1, 2), r.pick(OPT_REPLACE_ELEMS).to_vec()));
+    }
+    if on(r) {
+        c.remove_elems = Some(r.pick(OPT_ELEMS).to_vec());
+    }
+    if on(r) {
+        c.ignore_elems = Some(r.pick(OPT_ELEMS).to_vec());
+    }
+    if on(r) {
+        c.allow_elems = Some((r.chance(1, 2), r.pick(OPT_ELEMS).to_vec()));
+    }
+    if on(r) {
+        c.replace_attrs =
+            Some((r.chance(1, 2), r.pick(OPT_REPLACE_ATTRS).iter().map(|(e, m)| (*e, m.to_vec())).collect()));
+    }
+    if on(r) {
+        c.remove_attrs = Some(props_of(*r.pick(OPT_PROPS_ATTRS)));
+    }
+    if on(r) {
+        c.allow_attrs = Some((r.chance(1, 2), props_of(*r.pick(OPT_PROPS_ATTRS))));
+    }
+    if on(r) {
+        c.deny_schemes = Some(schemes_of(*r.pick(OPT_SCHEMES)));
+    }
+    if on(r) {
+        c.allow_schemes = Some((r.chance(1, 2), schemes_of(*r.pick(OPT_SCHEMES))));
+    }
+    if on(r) {
+        c.remove_classes = Some(props_of(*r.pick(OPT_CLASSES)));
+    }
+    if on(r) {
+        c.allow_classes = Some((r.chance(1, 2), props_of(*r.pick(OPT_CLASSES))));
+    }
+    if on(r) {
+        c.max_depth = Some(*r.pick(&[0u32, 1, 2, 3, 5, 99, 100, 101, 250]));
+    }
+    c
+}
+
+pub fn presets() -> Vec<Cfg> {
+    let mut v = vec![];
+    for mode in [1u8, 2, 0] {
+        for reply in [false, true] {
+            v.push(Cfg { mode, reply, ..Default::default() });
+        }
+    }
+    v
+}
+
+/// Every single-option modification of a preset, with every option value and behaviour.
+pub fn single_option_cfgs() -> Vec<Cfg> {
+    let mut v = vec![];
+    for base in presets() {
+        for o in [false, true] {
+            for x in OPT_REPLACE_ELEMS {
+                v.push(Cfg { replace_elems: Some((o, x.to_vec())), ..base.clone() });
+            }
+            for x in OPT_ELEMS {
+                v.push(Cfg { allow_elems: Some((o, x.to_vec())), ..base.clone() });
+            }
+            for x in OPT_REPLACE_ATTRS {
+                v.push(Cfg { replace_attrs: Some((o, x.iter().map(|(e, m)| (*e, m.to_vec())).collect())), ..base.clone() });
+            }
+            for x in OPT_PROPS_ATTRS {
+                v.push(Cfg { allow_attrs: Some((o, props_of(x))), ..base.clone() });
+            }
+            for x in OPT_SCHEMES {
+                v.push(Cfg { allow_schemes: Some((o, schemes_of(x))), ..base.clone() });
+            }
+            for x in OPT_CLASSES {
+                v.push(Cfg { allow_classes: Some((o, props_of(x))), ..base.clone() });
+            }
+        }
+        for x in OPT_ELEMS {
+            v.push(Cfg { remove_elems: Some(x.to_vec()), ..base.clone() });
+            v.push(Cfg { ignore_elems: Some(x.to_vec()), ..base.clone() });
+        }
+        for x in OPT_PROPS_ATTRS {
+            v.push(Cfg { remove_attrs: Some(props_of(x)), ..base.clone() });
+        }
+        for x in OPT_SCHEMES {
+            v.push(Cfg { deny_schemes: Some(schemes_of(x)), ..base.clone() });
+        }
+        for x in OPT_CLASSES {
+            v.push(Cfg { remove_classes: Some(props_of(x)), ..base.clone() });
+        }
+        for d in [0u32, 1, 2, 3, 99, 100, 101] {
+            v.push(Cfg { max_depth: Some(d), ..base.clone() });
+        }
+    }
+    v
+}
+
+/// Markup whose parse tree is not what the text suggests (foster parenting, adoption agency,
+/// raw-text elements, foreign content, integration points, attribute breakouts, known
+/// mutation-XSS shapes): what an HTML parser makes of the sanitized output is part of C14.
+pub const PARSER_STRESS: &[&str] = &[
+    "<svg></p><style><a id=\"</style><img src=1 onerror=alert(1)>\">",
+    "<math><mtext><table><mglyph><style><!--</style><img title=\"--&gt;&lt;img src=1 onerror=alert(1)&gt;\">",
+    "<form><math><mtext></form><form><mglyph><style></math><img src onerror=alert(1)>",
+    "<noscript><p title=\"</noscript><img src=x onerror=alert(1)>\">",
+    "<select><template><style><!--</style><a rel=\"--></style></template></select><img id=x src onerror=alert(1)>\">",
+    "<svg><style><img src=x onerror=alert(1)></style></svg>",
+    "<math><annotation-xml encoding=\"text/html\"><style><img src=x onerror=alert(1)></style></annotation-xml></math>",
+    "<math><annotation-xml encoding=\"text/html\"><a href=\"javascript:alert(1)\">x</a><img src=\"http://evil\"></annotation-xml></math>",
+    "<svg><foreignObject><a href=\"javascript:alert(1)\" data-x=\"1\">x</a></foreignObject></svg>",
+    "<svg><desc><img alt=\"a\" src=\"http://evil\"><b>x</b></desc></svg>",
+    "<table><td><a href=\"https://a\">x</td></table>",
+    "<table><a href=https://a>foster</a><tr><td>x</table>",
+    "<table><tr><td><svg><tr><td>x</td></tr></svg></td></tr></table>",
+    "<svg><tr><td>x</td></tr><caption>c</caption><a href=\"https://a\">l</a></svg>",
+    "<a href=\"https://a\"><div><a href=\"https://b\">y</a></div></a>",
+    "<a href=\"https://a\"><svg><a href=\"https://b\">y</a></svg></a>",
+    "<b><p>x</b>y</p>",
+    "<p><b><i>x</p>y</i></b>",
+    "<b><b><b><b><p>x</p></b></b></b></b>",
+    "<xmp><img src=x onerror=alert(1)></xmp>",
+    "<plaintext><b>x</b>",
+    "<textarea><img src=x onerror=alert(1)></textarea>",
+    "<title><img src=x onerror=alert(1)></title>",
+    "<iframe><img src=x onerror=alert(1)></iframe>",
+    "<noembed><img src=x onerror=alert(1)></noembed>",
+    "<noframes><img src=x onerror=alert(1)></noframes>",
+    "<script><img src=x onerror=alert(1)></script>",
+    "<style><img src=x onerror=alert(1)></style>",
+    "<style>&lt;img src=x&gt;</style><xmp>&lt;b&gt;</xmp>",
+    "<img src=\"mxc://a/b\" alt=\"`><img src=x onerror=alert(1)>\">",
+    "<a href=\"https://a\" title=\"&quot;><img src=x onerror=1>\">x</a>",
+    "<a href=\"https://a&quot; onmouseover=&quot;alert(1)\">x</a>",
+    "<details open ontoggle=alert(1)><summary>x</summary></details>",
+    "<svg><a xlink:href=\"javascript:alert(1)\"><text>x</text></a></svg>",
+    "<svg><a xlink:href=\"https://a\" xlink:title=\"t\" xml:lang=\"en\" target=\"_blank\">x</a></svg>",
+    "<svg><use href=\"data:image/svg+xml,x\"/></svg>",
+    "<math href=\"javascript:alert(1)\">x</math>",
+    "<math><mi xlink:href=\"javascript:alert(1)\">x</mi></math>",
+    "<img src=\"mxc://a/b\" srcset=\"http://evil 1x\">",
+    "<a href=\"https://a\" ping=\"http://evil\">x</a>",
+    "<span style=\"background:url(javascript:alert(1))\" data-mx-color=\"red\">x</span>",
+    "<font color=\"red\" data-mx-color=\"blue\">x</font>",
+    "<font color=\"red\" data-mx-color=\"red\">x</font>",
+    "<font data-mx-color=\"a\" color=\"b\" data-mx-bg-color=\"c\" size=\"3\">x</font>",
+    "<svg><font color=\"red\">x</font></svg>",
+    "<svg><font>x<strike>y</strike></font></svg>",
+    "<div data-mx-maths=\"x\"><svg><div>y</div></svg></div>",
+    "<template><b>x</b><script>1</script></template>",
+    "<table><template><tr><td>x</td></tr></template></table>",
+    "<br></br><p></p></p>",
+    "<li><ul><li><ol start=1 type=a><li>x",
+    "<a href=\"https://a&#0;b\">x</a>",
+    "<a href=\"&#x6a;avascript:alert(1)\">x</a>",
+    "<a href=\"java&#x0A;script:alert(1)\" data-x=\"1\">x</a>",
+    "<!--><img src=x onerror=1>-->",
+    "<!--!><img src=x>",
+    "<![CDATA[<img src=x>]]>",
+    "<svg><![CDATA[<img src=x onerror=1>]]></svg>",
+    "<h1><h2>x</h1>y</h2>",
+    "<caption>c<table><caption>d</caption></table></caption>",
+    "<code class=\"language-x\"><code class=\"y\">z</code></code>",
+    "<pre>\n\nx</pre><textarea>\nx</textarea>",
+    "<mx-reply><blockquote><a href=\"https://matrix.to/#/!r:s/$e\">In reply to</a> x</blockquote></mx-reply>y",
+    "<mx-reply><mx-reply>x</mx-reply>y</mx-reply>z",
+    "<x-foo><mx-reply>x</mx-reply>y</x-foo>",
+    "<svg><mx-reply>x</mx-reply></svg>",
+    "<span data-mx-spoiler>s</span><span data-mx-spoiler=\"r\" data-mx-maths=\"\\pi\">s</span>",
+    "<ol start=\"-1\" reversed><li value=\"3\">x</ol>",
+    "<img src=\"mxc://a/b\" width=\"1\" height=\"2\" alt=\"a\" title=\"t\" loading=\"lazy\">",
+    "<p>a<br>b<hr>c<img src=\"mxc://a/b\">d</p>",
+    "<frameset><frame src=x></frameset>",
+    "<body onload=alert(1)><b>x</b></body>",
+    "<html><head><title>t</title></head><body><p>x</p></body></html>",
+    "</div><b>x</b>",
+    "<svg><b>x</b></svg><math><i>y</i></math>",
+    "<svg><p>x</p><a href=\"https://a\">l</a></svg>",
+    "<math><mtext><a href=\"javascript:x\" target=\"_blank\">l</a></mtext></math>",
+    "<select><option><b>x</b></option></select>",
+    "<button><button>x</button></button>",
+    "<nobr><nobr>x</nobr></nobr>",
+    "<marquee><table><marquee>x",
+    "<a><table><a>",
+    "<i><table><tr><td><i>x",
+    "<p><table><p>x",
+];
+
+/// Documents that exercise one element with every subset of its attribute pool.
+pub fn systematic_docs() -> Vec<String> {
+    let mut docs = vec![];
+    // scheme spellings on a[href] / img[src], alone and next to every other pool attribute
+    for u in URIS {
+        let q = u.replace('"', "&quot;");
+        docs.push(format!("<a href=\"{q}\">l</a>"));
+        docs.push(format!("<img src=\"{q}\">"));
+        docs.push(format!("<a data-x=\"1\" href=\"{q}\">l</a>"));
+        docs.push(format!("<a href=\"{q}\" target=\"_blank\" zzz=\"1\">l</a>"));
+        docs.push(format!("<img alt=\"a\" src=\"{q}\" title=\"t\">"));
+        docs.push(format!("<svg><a xlink:href=\"{q}\" href=\"{q}\">l</a></svg>"));
+    }
+    for (el, pool) in ATTR_POOL {
+        let pool = &pool[..pool.len().min(6)];
+        for mask in 0u32..(1 << pool.len()) {
+            let mut s = format!("<{el}");
+            // descending order for odd masks: source order must not matter
+            let idx: Vec<usize> =
+                if mask % 2 == 1 { (0..pool.len()).rev().collect() } else { (0..pool.len()).collect() };
+            for i in idx {
+                if mask & (1 << i) != 0 {
+                    let v = match pool[i] {
+                        "href" | "xlink:href" => ["https://a", "javascript:alert(1)", "mxc://a/b"][(mask as usize / 3) % 3],
+                        "src" => ["mxc://a/b", "http://evil", "https://a"][(mask as usize / 5) % 3],
+                        "class" => ["language-x foo", "language-x", "foo", "a b"][(mask as usize / 7) % 4],
+                        "color" => "red",
+                        _ => "1",
+                    };
+                    s.push_str(&format!(" {}=\"{}\"", pool[i], v));
+                }
+            }
+            s.push_str(&format!(">t</{el}>"));
+            docs.push(s);
+        }
+    }
+    for c in CLASSES {
+        docs.push(format!("<code class=\"{c}\">x</code>"));
+        docs.push(format!("<span class=\"{c}\">x</span>"));
+    }
+    for el in ALLOWED.iter().chain(DEPRECATED).chain(FORBIDDEN).chain(FOREIGN) {
+        docs.push(format!("a<{el} id=\"1\">b<b>c</b><x-foo>d<i>e</i></x-foo></{el}>f"));
+    }
+    for d in PARSER_STRESS {
+        docs.push((*d).to_owned());
+    }
+    for n in [0usize, 1, 2, 3, 4, 98, 99, 100, 101, 102, 150, 300] {
+        docs.push(format!("{}x{}", "<div>".repeat(n), "</div>".repeat(n)));
+        docs.push(format!("{}<b>x</b>{}", "<x-foo>".repeat(n), "</x-foo>".repeat(n)));
+        docs.push(format!("{}<a href=\"https://a\">x</a>y{}", "<span><x-foo>".repeat(n / 2), "</x-foo></span>".repeat(n / 2)));
+    }
+    docs
+}
+
+pub fn run_streams(tier: &str, seed: u64, mut emit: impl FnMut(&str, &Cfg, &str)) {
+    let thorough = tier == "thorough";
+    let mut r = Rng::new(seed ^ 0xC14);
+    let presets = presets();
+    // systematic: every systematic document under every preset
+    let docs = systematic_docs();
+    for d in &docs {
+        for c in &presets {
+            emit("systematic-presets", c, d);
+        }
+    }
+    // systematic: every single-option configuration on a rotating slice of the documents
+    let singles = single_option_cfgs();
+    let per = if thorough { 60 } else { 3 };
+    for (i, c) in singles.iter().enumerate() {
+        for k in 0..per {
+            emit("systematic-single-option", c, &docs[(i * 131 + k * 17) % docs.len()]);
+        }
+    }
+    // systematic: two `class` attributes on one element (through an attribute replacement), so that the
+    // value rewriting of the class filter meets the set semantics of the attribute store
+    for mode in [1u8, 2, 0] {
+        for classes in [&[("span", &["a*", "b"][..])][..], &[("span", &["*"][..])][..], &[("span", &["a"][..]), ("code", &["language-*", "a"][..])][..]] {
+            for variant in 0..4 {
+                let mut c = Cfg {
+                    mode,
+                    replace_attrs: Some((false, vec![("span", vec![("style", "class")]), ("code", vec![("id", "class")])])),
+                    allow_attrs: Some((false, vec![("span", vec!["class"])])),
+                    ..Default::default()
+                };
+                match variant {
+                    0 => c.allow_classes = Some((false, props_of(classes))),
+                    1 => c.allow_classes = Some((true, props_of(classes))),
+                    2 => c.remove_classes = Some(props_of(classes)),
+                    _ => {
+                        c.remove_classes = Some(props_of(classes));
+                        c.allow_classes = Some((false, props_of(&[("span", &["*b*", "a"][..]), ("code", &["*"][..])])));
+                    }
+                }
+                for x in ["a", "b", "a b", "ab a", "c", "", " a", "language-x a", "a a"] {
+                    for y in ["a", "b", "b a", "c a", "language-y", "a  a"] {
+                        emit("systematic-class-sets", &c, &format!("<span style=\"{x}\" class=\"{y}\">t</span><code id=\"{x}\" class=\"{y}\">u</code>"));
+                    }
+                }
+            }
+        }
+    }
+    // random structured documents
+    let n = if thorough { 150_000 } else { 4_000 };
+    for _ in 0..n {
+        let d = gen_doc(&mut r, false);
+        let c = if r.chance(1, 3) { r.pick(&presets).clone() } else { gen_cfg(&mut r) };
+        emit("random", &c, &d);
+    }
+    // allow-list grammar (clean documents)
+    let n = if thorough { 40_000 } else { 1_500 };
+    for _ in 0..n {
+        let d = gen_doc(&mut r, true);
+        let c = if r.chance(2, 3) { r.pick(&presets).clone() } else { gen_cfg(&mut r) };
+        emit("random-clean-grammar", &c, &d);
+    }
+    // nesting
+    let n = if thorough { 4_000 } else { 150 };
+    for _ in 0..n {
+        let depth = *r.pick(&[5usize, 50, 98, 99, 100, 101, 102, 120, 200, 300]);
+        let d = gen_nested(&mut r, depth);
+        let c = if r.chance(1, 2) { r.pick(&presets).clone() } else { gen_cfg(&mut r) };
+        emit("nesting", &c, &d);
+    }
+    // parser stress: pairs of the parser-stress documents, side by side and nested
+    let n = if thorough { 30_000 } else { 800 };
+    for _ in 0..n {
+        let (a, b) = (*r.pick(PARSER_STRESS), *r.pick(PARSER_STRESS));
+        let d = match r.below(4) {
+            0 => format!("{a}{b}"),
+            1 => format!("<div>{a}</div>{b}"),
+            2 => format!("<x-foo>{a}{b}"),
+            _ => format!("<table><tr><td>{a}</td></tr></table><svg>{b}"),
+        };
+        let c = if r.chance(3, 4) { r.pick(&presets).clone() } else { gen_cfg(&mut r) };
+        emit("parser-stress", &c, &d);
+    }
+    // malformed: character-level mutants of generated and parser-stress documents
+    let n = if thorough { 40_000 } else { 1_500 };
+    for _ in 0..n {
+        let base = if r.chance(1, 3) { (*r.pick(PARSER_STRESS)).to_owned() } else { gen_doc(&mut r, false) };
+        let mut d: Vec<char> = base.chars().collect();
+        for _ in 0..1 + r.below(3) {
+            if d.is_empty() {
+                break;
+            }
+            let i = r.below(d.len());
+            match r.below(4) {
+                0 => {
+                    d.remove(i);
+                }
+                1 => d.insert(i, *r.pick(&['<', '>', '"', '\'', '/', '=', '&', ' ', '\u{0}', '!', '-'])),
+                2 => {
+                    let j = r.below(d.len());
+                    d.swap(i, j);
+                }
+                _ => d.truncate(i),
+            }
+        }
+        let d: String = d.into_iter().collect();
+        let c = if r.chance(1, 2) { r.pick(&presets).clone() } else { gen_cfg(&mut r) };
+        emit("malformed", &c, &d);
+    }
+}
+
+/// Stream tag plus whether the sanitizer changed the parsed tree (evidence distribution).
+pub fn tag_of(tag: &str, case: &Sx, out: &Sx) -> String {
+    let input = case.as_list().and_then(|l| l.get(2));
+    let cleaned = out.as_list().and_then(|l| l.get(1)).and_then(|x| x.as_list()).and_then(|l| l.first());
+    format!("{tag}:{}", if input == cleaned { "unchanged" } else { "changed" })
+}
+
+pub fn run(tier: &str, seed: u64, em: &mut Emitter) {
+    run_streams(tier, seed, |tag, c, d| {
+        let c = c.clone().normalise();
+        let (case, out) = (case_sx(&c, d), run_case(&c, d));
+        em.emit(&tag_of(tag, &case, &out), case, out);
+    });
+}
